@@ -14,7 +14,9 @@ type genMode struct {
 }
 
 var strAlphabet = []string{"a", "b", "c"}
-var numAlphabet = []interface{}{int64(0), int64(1), float64(1), int64(2), int64(-1), 1.5, int64(1) << 53}
+// the last two are more than 2^63 apart (an order computed by subtraction wraps around)
+var numAlphabet = []interface{}{int64(0), int64(1), float64(1), int64(2), int64(-1), 1.5, int64(1) << 53,
+	int64(6000000000000000000), int64(-6000000000000000000)}
 
 func genScalar(r *rand.Rand, t schema.Scalar) interface{} {
 	switch t {
